@@ -376,6 +376,19 @@ class Checker:
       sv = self.stale_val.setdefault(id(cfg), set())
       st = self.stale_tag.setdefault(id(cfg), set())
       n_val = n_tag = 0
+      if raised and (label in ('setattr', 'delattr', 'delitem', 'add_tag', 'remove_tag',
+                                'clear_tags') or (label == 'setitem' and 'v' in op)):
+        # a refused single-key operation assigned nothing: it logs nothing
+        # (multi-key operations may have applied, and logged, a valid prefix)
+        for k, es in new_entries.items():
+          if (b_args.get(k, ABSENT) is a_args.get(k, ABSENT)
+              and b_tags.get(k, frozenset()) == a_tags.get(k, frozenset())):
+            self.viols.append(V('entry-by-refused-op',
+                                f'thread {tid} op #{idx} {op}: the operation was '
+                                f'refused and changed nothing about {k!r}, yet '
+                                f'{len(es)} history entr(y/ies) were appended',
+                                op=label))
+            return
       for k in set(b_args) | set(a_args) | set(new_entries):
         changed = b_args.get(k, ABSENT) is not a_args.get(k, ABSENT)
         vals = [e for e in new_entries.get(k, []) if e.kind.name == 'NEW_VALUE']
